@@ -600,6 +600,8 @@ func init() {
 		// --- byte/strings assembly-backed helpers: concrete natively, symbolic by loops ---
 		"strings.Compare":                  extStringCompare,
 		"internal/bytealg.CompareString":   extStringCompare,
+		"internal/stringslite.Clone": func(fr *frame, args []value) value { return args[0] }, // strings are immutable values here
+		"strings.Clone":              func(fr *frame, args []value) value { return args[0] },
 		"internal/bytealg.MakeNoZero": func(fr *frame, args []value) value {
 			n := int(asInt64(args[0]))
 			out := make([]value, n)
